@@ -348,7 +348,10 @@ def run_flip(resname, position, outcome):
         math_q = type("M", (), {"pi": 3.141592653589793, "cos": staticmethod(lambda x: minus1), "sin": staticmethod(lambda x: zero)})  # a flip is exactly 180 degrees
         names = optinstance.optangle.split()
         b = old[names[1]]
-        with patched((quatfit, "math", math_q), (quatfit, "normalize", norm), (utilities, "np", shims.NP), (utilities, "dihedral", lambda *a: 0.0), (debump, "util", utilities)):
+        from pdb2pqr import structures as structures_mod
+
+        # Atom.__str__ is only used in a debug message of fix_flip (it would render symbolic coordinates)
+        with patched((quatfit, "math", math_q), (quatfit, "normalize", norm), (utilities, "np", shims.NP), (utilities, "dihedral", lambda *a: 0.0), (debump, "util", utilities), (structures_mod.Atom, "__str__", lambda self: f"<atom {self.name}>")):
             flip = hs.Flip(res, optinstance, deb)
             moved_names = [n[:-4] for n in (a.name for a in res.atoms) if n.endswith("FLIP")]
             if outcome == "keep" and moved_names:
